@@ -20,6 +20,7 @@ EXPLANATION = (
     "behaviour under a failure injected at each chunk are NOT decided (they need execution)."
     " (D6) One indexing surface: every sample selector handed to self._raw in Reader.read / read_sync_digital is the caller's own selector, or a piece [a:b:step] of the caller's slice whose start is congruent to the slice start modulo step (decided on normal forms with mod(x, step) == x)."
     " (D1 as built) when the producer is a repo function handed the final name (decompress_file(out=final)), the callee itself must stage: every value its writer's out= can take is provably a different name (with_suffix(suffix + 'x') ...) and the final name is created by rename/replace of that file after the writer returned."
+    ' (D6 as built) the sample selector is followed into helper methods and into decompressed chunks read with read_chunk(i): the absolute start chunk_bounds[i] + lo of a piece is compared with the slice start modulo the step.'
 )
 ASSUMPTIONS = [
     "mtscomp.compress(path, out=, outmeta=) writes `out` completely, then `outmeta`, then returns; raises on failure (read in /venv/.../mtscomp.py)",
